@@ -421,7 +421,27 @@ def ggh(repo, rule):
             iv, bv = norm(loops[0].target.elts[0]), norm(loops[0].target.elts[1])
             from ..flatten import resolve_locals
             txt = " ; ".join(norm(resolve_locals(fi.node, st)) for st in loops[0].body)
-            ok = ("%s * SHA512_prng(%s)" % (bv, iv) in txt or "SHA512_prng(%s) * %s" % (iv, bv) in txt) and (
+            # names that stand for the bit itself: bound (on every arm of a dispatch by operand kind) to the bit, its wire
+            # `b.lc`, its plain value `int(b)` / `b.value`
+            def _ident(e, al):
+                t_ = norm(e)
+                return any(t_ in (a_, "%s.lc" % a_, "int(%s)" % a_, "%s.value" % a_, "%s.lc.value" % a_) for a_ in al)
+            aliases = {bv}
+            grew = True
+            while grew:
+                grew = False
+                binds = {}
+                for a_ in [x for st in loops[0].body for x in ast.walk(st)]:
+                    if isinstance(a_, ast.Assign) and len(a_.targets) == 1 and isinstance(a_.targets[0], ast.Name):
+                        binds.setdefault(a_.targets[0].id, []).append(a_.value)
+                for nm_, vals_ in binds.items():
+                    if nm_ not in aliases and nm_ != iv and all(_ident(v_, aliases) for v_ in vals_):
+                        aliases.add(nm_)
+                        grew = True
+            weighted = any(isinstance(x, ast.BinOp) and isinstance(x.op, ast.Mult) and any(
+                _ident(a_, aliases) and norm(b_) == "SHA512_prng(%s)" % iv for a_, b_ in ((x.left, x.right), (x.right, x.left)))
+                for st in loops[0].body for x in ast.walk(st))
+            ok = (weighted or "%s * SHA512_prng(%s)" % (bv, iv) in txt or "SHA512_prng(%s) * %s" % (iv, bv) in txt) and (
                 "% PRIME" in txt or "%= PRIME" in txt)
         if ok:
             rule.ok(fi.loc(), fi.fq, norm(loops[0].body)[:100], "bit i weighted by coefficient i, reduced mod PRIME")
